@@ -164,6 +164,8 @@ class S:
     exact: frozenset | None = None    # len == max(exact)
     tag: str | None = None            # 'param0' for the untouched input path
     fresh: object = None              # directory value d such that os.path.join(d, <this value>) was tested not to be an existing file
+    must: CharSet = CharSet.EMPTY     # characters that certainly occur
+    tok: int = 0                      # identity of the concrete string this value stands for (aliases share it)
     hist: tuple = field(default=(), compare=False)
 
 
@@ -216,7 +218,7 @@ ZERO = frozenset([(0, ())])
 def const_str(s):
     cs = CharSet.of(s)
     n = frozenset([(len(s), ())])
-    return S(cs, CharSet.of(s[-1:]) if s else CharSet.EMPTY, bool(s), n, n)
+    return S(cs, CharSet.of(s[-1:]) if s else CharSet.EMPTY, bool(s), n, n, must=cs)
 
 
 def digits_str():
@@ -232,7 +234,7 @@ def concat(a: S, b: S):
         ub = None
     if exact is not None and len(exact) > 4:
         exact = None
-    return S(may, last, a.nonempty or b.nonempty, ub, exact)
+    return S(may, last, a.nonempty or b.nonempty, ub, exact, must=a.must | b.must)
 
 
 @dataclass
@@ -240,12 +242,13 @@ class State:
     env: dict
     falsy: frozenset = frozenset()          # names known to be falsy on this path
     bounds: tuple = ()                      # ((atom, hi), ...) refinements valid on this path
+    mem: frozenset = frozenset()            # (token, char, bool): on this path the string `token` does / does not contain char
 
     def key(self):
-        return (tuple(sorted(self.env.items(), key=lambda kv: kv[0])), self.falsy, self.bounds)
+        return (tuple(sorted(self.env.items(), key=lambda kv: kv[0])), self.falsy, self.bounds, self.mem)
 
     def copy(self):
-        return State(dict(self.env), self.falsy, self.bounds)
+        return State(dict(self.env), self.falsy, self.bounds, self.mem)
 
 
 class Opaque(Exception):
@@ -277,6 +280,8 @@ class Interp:
         self.atoms = Atoms()
         self.frames = [Frame(fnode)]
         self.in_loop = 0
+        self.toks = {}
+        self.pieces = {}   # token of a concatenation -> its piece values
         self.stats = dict(char_cleaners=0, tail_cleaners=0, cuts=0, refinements=0, uniq_loops=0, guards=0, concat=0, splits=0, helpers=0)
         self.seen_sites = {k: set() for k in self.stats}
         self.notes = []
@@ -298,6 +303,12 @@ class Interp:
     def fn(self):
         return self.frames[-1].fnode
 
+    def token(self, *key):
+        t = self.toks.get(key)
+        if t is None:
+            t = self.toks[key] = len(self.toks) + 1
+        return t
+
     def site(self, kind, node):
         if id(node) not in self.seen_sites[kind]:
             self.seen_sites[kind].add(id(node))
@@ -307,9 +318,9 @@ class Interp:
         env = {}
         for p in self.params + [x.arg for x in self.root.args.kwonlyargs]:
             if p == self.p0:
-                env[p] = S(tag="param0")
+                env[p] = S(tag="param0", tok=self.token("param", p))
             elif p == "replace":
-                env[p] = S(FULL, FULL, True, ONE, ONE)
+                env[p] = S(FULL, FULL, True, ONE, ONE, tok=self.token("param", p))
             else:
                 env[p] = Top("param " + p)
         return State(env)
@@ -330,7 +341,10 @@ class Interp:
             fresh = vals[0].fresh if all(v.fresh == vals[0].fresh for v in vals) else None
             # provenance of the alternative that violates most (it is the one a finding will be about)
             worst = max(vals, key=lambda v: (sum(1 for ok in self.facts(v).values() if not ok), len(v.hist)))
-            return S(may, last, all(v.nonempty for v in vals), ub, None, None, fresh, worst.hist)
+            must = vals[0].must
+            for v in vals[1:]:
+                must = must & v.must
+            return S(may, last, all(v.nonempty for v in vals), ub, None, None, fresh, must, self.token("join", tuple(v.tok for v in vals)), worst.hist)
         if all(isinstance(v, Seq) for v in vals):
             el = []
             for v in vals:
@@ -374,28 +388,30 @@ class Interp:
             return Top("global " + e.id)
         if isinstance(e, ast.JoinedStr):
             acc = const_str("")
-            parts = []
+            parts, pieces = [], []
             for v in e.values:
                 if isinstance(v, ast.Constant):
-                    acc = concat(acc, const_str(v.value))
+                    pieces.append(const_str(v.value))
                 elif isinstance(v, ast.FormattedValue) and v.format_spec is None and v.conversion == -1:
                     pv = self.ev(v.value, st, stmt)
                     parts.append(pv)
-                    acc = concat(acc, self.as_str(pv))
+                    pieces.append(self.as_str(pv))
                 else:
-                    acc = concat(acc, S())
+                    pieces.append(S())
+                acc = concat(acc, pieces[-1])
             self.site("concat", e)
-            return self.derived(acc, stmt, parts, None, self.concat_kind(parts))
+            return self.derived(acc, stmt, parts, None, self.concat_kind(parts), pieces)
         if isinstance(e, ast.BinOp):
             l, r = self.ev(e.left, st, stmt), self.ev(e.right, st, stmt)
             if isinstance(e.op, ast.Add):
                 if isinstance(l, S) and isinstance(r, S):
                     self.site("concat", e)
-                    return self.derived(concat(l, r), stmt, [l, r], None, "concat")
+                    return self.derived(concat(l, r), stmt, [l, r], None, "concat", [l, r])
                 if isinstance(l, I) and isinstance(r, I):
                     return I(mx_add(l.val, r.val)) if l.val is not None and r.val is not None else I()
                 if isinstance(l, S) or isinstance(r, S):
-                    return self.derived(concat(self.as_str(l), self.as_str(r)), stmt, [l, r], None, self.concat_kind([l, r]))
+                    ls, rs = self.as_str(l), self.as_str(r)
+                    return self.derived(concat(ls, rs), stmt, [l, r], None, self.concat_kind([l, r]), [ls, rs])
                 return I() if (isinstance(l, I) or isinstance(r, I)) else Top("binop")
             if isinstance(e.op, ast.Sub) and isinstance(l, I) and isinstance(r, I):
                 if l.val is not None and r.val is not None:
@@ -439,7 +455,7 @@ class Interp:
         # a decimal rendering of an int inside the concatenation = a numbering suffix
         return "append-counter" if any(isinstance(p, I) for p in parts) else "concat"
 
-    def derived(self, new: S, stmt, inputs, attempt, kind="other"):
+    def derived(self, new: S, stmt, inputs, attempt, kind="other", pieces=None):
         """attach provenance: history of the primary string input + this step"""
         hist = ()
         for i in inputs:
@@ -452,7 +468,10 @@ class Interp:
             if kind in ("other", "concat") and hist[-1][4] not in ("other", "concat"):
                 kind = hist[-1][4]
             hist = hist[:-1]
-        return dc_replace(new, fresh=None, hist=hist + ((stmt, self.facts(new), att, self.fn, kind),))
+        tok = self.token(id(stmt), kind, tuple((i.tok if isinstance(i, S) else repr(i)) for i in inputs), new.may, new.last, new.ub, new.exact)
+        if pieces is not None:
+            self.pieces[tok] = tuple(pieces)
+        return dc_replace(new, fresh=None, tok=tok, hist=hist + ((stmt, self.facts(new), att, self.fn, kind),))
 
     def facts(self, v: S):
         m = mx_max(v.ub, self.atoms) if v.ub is not None else None
@@ -462,17 +481,21 @@ class Interp:
     def format_pieces(self, fmt, args, kwargs):
         import string
         acc = const_str("")
+        self.last_pieces = pieces = []
         auto = 0
         try:
             parsed = list(string.Formatter().parse(fmt))
         except ValueError:
+            self.last_pieces = None
             return S()
         for lit, fieldname, spec, conv in parsed:
             if lit:
-                acc = concat(acc, const_str(lit))
+                pieces.append(const_str(lit))
+                acc = concat(acc, pieces[-1])
             if fieldname is None:
                 continue
             if spec or conv:
+                pieces.append(S())
                 acc = concat(acc, S())
                 continue
             if fieldname == "":
@@ -482,28 +505,31 @@ class Interp:
                 v = args[int(fieldname)] if int(fieldname) < len(args) else Top()
             else:
                 v = kwargs.get(fieldname, Top())
-            acc = concat(acc, self.as_str(v))
+            pieces.append(self.as_str(v))
+            acc = concat(acc, pieces[-1])
         return acc
 
     def percent(self, fmt, right, st, stmt):
         vals = [self.ev(x, st, stmt) for x in right.elts] if isinstance(right, ast.Tuple) else [self.ev(right, st, stmt)]
         acc = const_str("")
+        pieces = []
         i = k = 0
         while i < len(fmt):
             if fmt[i] == "%" and i + 1 < len(fmt):
                 c = fmt[i + 1]
                 if c == "%":
-                    acc = concat(acc, const_str("%"))
+                    pieces.append(const_str("%"))
                 elif c in "sd" and k < len(vals):
-                    acc = concat(acc, self.as_str(vals[k]))
+                    pieces.append(self.as_str(vals[k]))
                     k += 1
                 else:
                     return self.derived(S(), stmt, vals, None)
                 i += 2
             else:
-                acc = concat(acc, const_str(fmt[i]))
+                pieces.append(const_str(fmt[i]))
                 i += 1
-        return self.derived(acc, stmt, vals, None, self.concat_kind(vals))
+            acc = concat(acc, pieces[-1])
+        return self.derived(acc, stmt, vals, None, self.concat_kind(vals), pieces)
 
     # ---- subscripts ---------------------------------------------------------
     def fresh_exact(self, name, ub, site=None):
@@ -524,8 +550,8 @@ class Interp:
             return self.derived(S(x.may, x.may, False, x.ub, None), stmt, [x], "len")
         if sl.upper is None:
             # suffix x[k:]: the last character is kept when anything is left
-            new = S(x.may, x.last, False, x.ub, None)
-            new = dc_replace(new, exact=self.fresh_exact("len(%s)" % norm(e)[:30], x.ub, e))
+            ex = self.fresh_exact("len(%s)" % norm(e)[:30], x.ub, e)
+            new = S(x.may, x.last, False, x.ub if x.ub is not None else ex, ex)
             return self.derived(new, stmt, [x], None)
         self.site("cuts", e)
         n = self.ev(sl.upper, st, stmt)
@@ -669,7 +695,8 @@ class Interp:
                 kw = {k.arg: self.ev(k.value, st, stmt) for k in e.keywords if k.arg}
                 self.site("concat", e)
                 allv = vals + list(kw.values())
-                return self.derived(self.format_pieces(recv.value, vals, kw), stmt, allv, None, self.concat_kind(allv))
+                acc = self.format_pieces(recv.value, vals, kw)
+                return self.derived(acc, stmt, allv, None, self.concat_kind(allv), self.last_pieces)
             x = self.ev(recv, st, stmt)
             if isinstance(x, S):
                 return self.str_method(x, meth, e, st, stmt)
@@ -762,6 +789,11 @@ class Interp:
             empty = const_str("")
             found = Tup((head, const_str(sep), tail))
             notfound = Tup((empty, empty, x)) if meth == "rpartition" else Tup((x, empty, empty))
+            known = self.contains(x, sep, st)
+            if known is True:
+                return found
+            if known is False:
+                return notfound
             return Fork((found, notfound))
         if meth in ("rfind", "find", "index", "rindex", "count"):
             return I()
@@ -790,7 +822,8 @@ class Interp:
     def split_parts(self, x, sep, stmt, right=True, keep_sep_in_last=False):
         """(head, tail) of x split once at `sep`"""
         self.site("splits", stmt)
-        head = S(x.may, x.may, False, x.ub, self.fresh_exact("len(head)", x.ub, stmt))
+        hx = self.fresh_exact("len(head)", x.ub, stmt)
+        head = S(x.may, x.may, False, x.ub if x.ub is not None else hx, hx)
         if right:
             t_may = x.may if keep_sep_in_last else (x.may - sep)
             t_last = x.last if keep_sep_in_last else (x.last - sep)
@@ -798,7 +831,8 @@ class Interp:
             tail = S(t_may, t_last, t_nonempty and x.nonempty or (t_nonempty and not keep_sep_in_last), x.ub, None)
         else:
             tail = S(x.may, x.last, False, x.ub, None)
-        tail = dc_replace(tail, exact=self.fresh_exact("len(ext)" if right else "len(rest)", x.ub, stmt))
+        tx = self.fresh_exact("len(ext)" if right else "len(rest)", x.ub, stmt)
+        tail = dc_replace(tail, exact=tx, ub=tail.ub if tail.ub is not None else tx)
         return Tup((self.derived(head, stmt, [x], None, "split"), self.derived(tail, stmt, [x], None, "split")))
 
     def keeps_len(self, r):
@@ -948,6 +982,45 @@ class Interp:
             return states
         _err("statement `%s` is outside the analysable fragment" % norm(s)[:60])
 
+    # ---- character membership (relational, per path) ------------------------------
+    def contains(self, v, c, st):
+        """does the string certainly (True) / certainly not (False) contain c on this path; None = unknown"""
+        if c in v.must:
+            return True
+        if c not in v.may:
+            return False
+        for t, ch, b in st.mem:
+            if t == v.tok and ch == c and t:
+                return b
+        ps = self.pieces.get(v.tok)
+        if ps:
+            rs = [self.contains(x, c, st) for x in ps]
+            if any(r is True for r in rs):
+                return True
+            if all(r is False for r in rs):
+                return False
+        return None
+
+    def open_leaves(self, v, c, st, out):
+        ps = self.pieces.get(v.tok)
+        if ps:
+            for x in ps:
+                if self.contains(x, c, st) is None:
+                    self.open_leaves(x, c, st, out)
+        elif v.tok and v.tok not in [o.tok for o in out]:
+            out.append(v)
+        elif not v.tok:
+            out.append(v)
+
+    def learn(self, st, tok, c, b):
+        if not tok:
+            return
+        st.mem = st.mem | {(tok, c, b)}
+        cs = CharSet.of(c)
+        for k, val in list(st.env.items()):
+            if isinstance(val, S) and val.tok == tok:
+                st.env[k] = dc_replace(val, must=val.must | cs) if b else dc_replace(val, may=val.may - cs, last=val.last - cs)
+
     # ---- conditions ------------------------------------------------------------
     def probe_of(self, test):
         """[not] os.path.isfile|exists(os.path.join(d, n)) -> ('present'|'absent', d expr, n expr)"""
@@ -1031,6 +1104,29 @@ class Interp:
                 and isinstance(test.comparators[0], ast.Constant) and test.comparators[0].value is None and isinstance(test.left, ast.Call):
             a, b = self.branch(test.left, st, stmt)   # a match object is truthy, None is falsy
             return (b, a) if isinstance(test.ops[0], ast.Is) else (a, b)
+        # '<c>' in x : decided where known, otherwise both branches learn it (also about the one piece of a concatenation it depends on)
+        if isinstance(test, ast.Compare) and len(test.ops) == 1 and isinstance(test.ops[0], (ast.In, ast.NotIn)) \
+                and isinstance(test.left, ast.Constant) and isinstance(test.left.value, str) and len(test.left.value) == 1:
+            c = test.left.value
+            v = self.ev(test.comparators[0], st, stmt)
+            if isinstance(v, S):
+                r = self.contains(v, c, st)
+                if r is None:
+                    t, f = st.copy(), st.copy()
+                    leaves = []
+                    self.open_leaves(v, c, st, leaves)
+                    toks = {x.tok for x in leaves}
+                    for state, b in ((t, True), (f, False)):
+                        self.learn(state, v.tok, c, b)
+                        if len(leaves) == 1 and 0 not in toks:
+                            self.learn(state, leaves[0].tok, c, b)
+                        elif not b:
+                            for x in leaves:
+                                self.learn(state, x.tok, c, False)
+                    res = ([t], [f])
+                else:
+                    res = ([st.copy()], []) if r else ([], [st.copy()])
+                return res if isinstance(test.ops[0], ast.In) else (res[1], res[0])
         # existence probe: the false branch of isfile(join(d, n)) knows that join(d, n) is not an existing file
         p = self.probe_of(test)
         if p:
